@@ -902,6 +902,59 @@ func c15Next(c *Ctx) {
 		}
 	})
 	c.Check(okNext && okMod, "O15.5", fk(ci)+":next-index-by-path-modulo-length", ci.Pos(), fmt.Sprintf("index = iter.Next(<path of the segment>): %v; reduced modulo length on index >= length: %v", okNext, okMod))
+	// the path that names a [next] counter is the path as written so far: in GetMapValue the builder whose String() goes
+	// to extractFromSlice receives, per segment, "." and the whole (trimmed) segment - with its index expression - not a
+	// part cut out of it: `regions[0].users[next]` and `regions[1].users[next]` are different lists with their own counters
+	if gm := P.Func("lib/mp", "", "GetMapValue"); gm == nil {
+		c.Anchor("O15.5", "lib/mp.GetMapValue")
+	} else {
+		var pathArg ssa.Value
+		EachInstr(gm, func(in ssa.Instruction) {
+			if cl, ok := in.(*ssa.Call); ok && cl.Call.StaticCallee() != nil && cl.Call.StaticCallee().Name() == "extractFromSlice" && len(cl.Call.Args) >= 3 {
+				pathArg = cl.Call.Args[2]
+			}
+		})
+		okKey, detail := false, "no extractFromSlice(value, index, <path so far>, iter) call"
+		if sc, _ := CallOfValue(pathArg); sc != nil && MatchCC(&sc.Call, Spec{"strings", "Builder", "String"}) {
+			builder := sc.Call.Args[0]
+			nW := 0
+			okKey = true
+			EachInstr(gm, func(in ssa.Instruction) {
+				cl, ok := in.(*ssa.Call)
+				if !ok || !MatchCC(&cl.Call, Spec{"strings", "Builder", "WriteString"}) || !sameRoots(cl.Call.Args[0], builder) {
+					return
+				}
+				nW++
+				// the written text is the ranged segment itself, possibly trimmed - never a slice of it or a helper's result
+				for _, r := range Roots(cl.Call.Args[1], false) {
+					r = Strip(r)
+					if tc, isC := r.(*ssa.Call); isC && MatchCC(&tc.Call, Spec{"strings", "", "TrimSpace"}) {
+						r = Strip(tc.Call.Args[0])
+						if rs := Roots(r, false); len(rs) == 1 {
+							r = Strip(rs[0])
+						}
+					}
+					switch x := r.(type) {
+					case *ssa.UnOp: // the element of the ranged segments slice
+						if _, isIA := x.X.(*ssa.IndexAddr); !isIA {
+							okKey = false
+						}
+					case *ssa.Const:
+					default:
+						okKey = false
+						detail = fmt.Sprintf("the builder receives %s, not the segment as written", r)
+					}
+				}
+			})
+			if nW == 0 {
+				okKey = false
+				detail = "nothing is written into the path builder"
+			} else if okKey {
+				detail = fmt.Sprintf("%d WriteString call(s), each with the whole segment", nW)
+			}
+		}
+		c.Check(okKey, "O15.5", fk(gm)+":next-key-is-the-path-as-written", gm.Pos(), "the counter key handed to extractFromSlice is the accumulated path with every segment as written (index expressions included): "+detail)
+	}
 	// GetMapValue passes the accumulated path, one iterator per scenario
 	for _, rel := range []string{"components/providers/scenario/http", "components/providers/scenario/grpc"} {
 		fn := P.Func(rel, "", "convertScenarioToAmmo")
